@@ -6,6 +6,8 @@
  *   C <obj|cfg> <tag>
  *   N <id> <h|s> <host>
  *   D <id> <child> <parent> <group|-> <filter> <ignoreSoft> <period -1|0..3> <disChecks> <disNotif>
+ *                                              <filter>, <ignoreSoft>, <disChecks>, <disNotif> may be "u" (cfg mode, D and A): the attribute is
+ *                                              left out of the configuration, the defaults of OnConfigLoaded / dependency.ti apply
  *                                              <group> may be @<nodeId>: the redundancy group named exactly like that node
  *                                              (GetName(): host name or host!service); G prints such a group as @<nodeId> again
  *   X <depid>
@@ -247,6 +249,17 @@ static void Neutral(const Checkable::Ptr& c)
 	c->SetLastCheckResult(CheckResult::Ptr());
 }
 
+static unsigned QBudget()
+{
+	const char *e = getenv("C07_Q_BUDGET");
+	int v = e ? atoi(e) : 0;
+	return v > 0 ? (unsigned)v : 10u;
+}
+
+/* attribute tokens of D / A lines: "u" = the attribute is not set in the configuration (cfg mode only), value -1 here */
+static int TokVal(const char *t) { return (t[0] == 'u' && !t[1]) ? -1 : atoi(t); }
+static std::string Tok(int v) { return v < 0 ? std::string("u") : std::to_string(v); }
+
 struct Engine {
 	int counter = 0;
 	bool active = false, cfg = false, dead = false, loadedOnce = false;
@@ -424,9 +437,12 @@ struct Engine {
 	{
 		if (!active || dead)
 			return;
-		printf("D %d %d %d %s %d %d %d %d %d\n", id, child, parent, group.empty() ? "-" : group.c_str(), filter, ign, period, dc, dn);
+		printf("D %d %d %d %s %s %s %d %s %s\n", id, child, parent, group.empty() ? "-" : group.c_str(), Tok(filter).c_str(), Tok(ign).c_str(), period,
+			Tok(dc).c_str(), Tok(dn).c_str());
 		if (deps.count(id))
 			return Fail("dep-id");
+		if (!cfg && (filter < 0 || ign < 0 || dc < 0 || dn < 0))
+			return Fail("unset-attribute-in-obj-mode"); /* defaults are applied by the config path (OnConfigLoaded, dependency.ti) */
 		if (child < 0 || parent < 0 || child >= (int)nodes.size() || parent >= (int)nodes.size())
 			return Fail("dep-node");
 		if (period < -1 || period > 3)
@@ -472,12 +488,17 @@ struct Engine {
 				t += "parent_host_name = \"" + HostName(parent) + "\"; ";
 			if (!realGroup.empty())
 				t += "redundancy_group = \"" + realGroup + "\"; "; /* names contain no '"' or '\\': no escaping needed, '!' is fine */
-			t += "states = " + StatesArray(filter) + "; ";
-			t += std::string("ignore_soft_states = ") + (ign ? "true" : "false") + "; ";
+			if (filter >= 0)
+				t += "states = " + StatesArray(filter) + "; ";
+			if (ign >= 0)
+				t += std::string("ignore_soft_states = ") + (ign ? "true" : "false") + "; ";
 			if (period >= 0)
 				t += "period = \"vp" + std::to_string(period) + "\"; ";
-			t += std::string("disable_checks = ") + (dc ? "true" : "false") + "; ";
-			t += std::string("disable_notifications = ") + (dn ? "true" : "false") + " }\n";
+			if (dc >= 0)
+				t += std::string("disable_checks = ") + (dc ? "true" : "false") + "; ";
+			if (dn >= 0)
+				t += std::string("disable_notifications = ") + (dn ? "true" : "false") + "; ";
+			t += "}\n";
 			buf += t;
 			d.cfgName = full;
 			pendD.push_back(id);
@@ -602,6 +623,7 @@ struct Engine {
 			return;
 		}
 		printf("L | ok\n");
+		fflush(stdout);
 	}
 
 	void Q()
@@ -622,6 +644,11 @@ struct Engine {
 			bits = "-";
 		std::string out = "Q " + bits + " |";
 		char tmp[96];
+		/* "so evaluation always terminates": the evaluation of all checkables gets a generous wall-clock budget; when it is
+		 * exceeded (a cyclic graph was accepted and the recursion fans out below the 256-level guard) the case ends with
+		 * "E evaluation-timeout" instead of hanging the whole run. What was printed so far is flushed first. */
+		fflush(stdout);
+		alarm(QBudget());
 		for (const Node& n : nodes) {
 			if (!n.obj) {
 				out += " x";
@@ -633,6 +660,7 @@ struct Engine {
 			snprintf(tmp, sizeof tmp, " %d%d%d:%zu:%zu", a, b, c, n.obj->GetDependencies().size(), n.obj->GetDependencyGroups().size());
 			out += tmp;
 		}
+		alarm(0);
 		snprintf(tmp, sizeof tmp, " reg=%ld", (long)DependencyGroup::GetRegistrySize() - regBase);
 		out += tmp;
 		puts(out.c_str());
@@ -653,7 +681,8 @@ struct Engine {
 		if (!active || dead)
 			return;
 		char head[256];
-		snprintf(head, sizeof head, "A %d %d %d %s %d %d %d %d %d", id, child, parent, group.empty() ? "-" : group.c_str(), filter, ign, period, dc, dn);
+		snprintf(head, sizeof head, "A %d %d %d %s %s %s %d %s %s", id, child, parent, group.empty() ? "-" : group.c_str(), Tok(filter).c_str(),
+			Tok(ign).c_str(), period, Tok(dc).c_str(), Tok(dn).c_str());
 		auto bad = [&](const char *why) {
 			puts(head);
 			Fail(why);
@@ -699,7 +728,7 @@ struct Engine {
 		}
 		if (!realGroup.empty())
 			attrs->Set("redundancy_group", String(realGroup));
-		{
+		if (filter >= 0) {
 			static const char *names[] = { "OK", "Warning", "Critical", "Unknown", "Up", "Down" };
 			Array::Ptr states = new Array();
 			for (int b = 0; b < 6; b++)
@@ -707,11 +736,14 @@ struct Engine {
 					states->Add(names[b]);
 			attrs->Set("states", states);
 		}
-		attrs->Set("ignore_soft_states", ign != 0);
+		if (ign >= 0)
+			attrs->Set("ignore_soft_states", ign != 0);
 		if (period >= 0)
 			attrs->Set("period", String("vp" + std::to_string(period)));
-		attrs->Set("disable_checks", dc != 0);
-		attrs->Set("disable_notifications", dn != 0);
+		if (dc >= 0)
+			attrs->Set("disable_checks", dc != 0);
+		if (dn >= 0)
+			attrs->Set("disable_notifications", dn != 0);
 		d.cfgName = full;
 
 		/* as CreateObjectHandler::HandleRequest (single-threaded: no ConfigObjectsSharedLock/ObjectNameLock) */
@@ -942,6 +974,24 @@ static void OnAbort(int sig)
 
 /* ------------------------------------------------------------------------------------------------
  * gen: obj-mode generation */
+
+/* SIGALRM while Q evaluates IsReachable (see Engine::Q): stdout was flushed before the alarm was armed. */
+static void OnQTimeout(int)
+{
+	static const char msg[] = "E evaluation-timeout\n";
+	ssize_t w = write(1, msg, sizeof msg - 1);
+	(void)w;
+	/* only async-signal-safe calls from here on: the interrupted thread may hold the logger's or an object's mutex, so no
+	 * library code (RemoveApiStorage() could block for ever); the scratch directory is removed by a child process */
+	if (!l_ApiTmpDir.empty()) {
+		pid_t pid = fork();
+		if (pid == 0) {
+			execl("/bin/rm", "rm", "-rf", l_ApiTmpDir.c_str(), (char *)nullptr);
+			_exit(0);
+		}
+	}
+	_exit(0);
+}
 
 static void AllStatesLoop(int node)
 {
@@ -2050,6 +2100,61 @@ static void GenRtSharedHand()
 }
 
 /* ------------------------------------------------------------------------------------------------
+ * gencfg, part "def": attributes left unset in the configuration ("u"): Dependency::OnConfigLoaded chooses the state filter
+ * (Up for a host parent, OK|Warning for a service parent), dependency.ti supplies ignore_soft_states = true,
+ * disable_checks = false, disable_notifications = true. Nodes: hosts 0, 1; service 2 of host 0; service 3 of host 1; all
+ * edges (also the implicit ones) lead from the higher to the lower id, so every case is acyclic. */
+
+static void DefAllStates(int parent)
+{
+	for (int chk = 0; chk < 2; chk++)
+		for (int raw = 0; raw < 4; raw++)
+			for (int ty = 0; ty < 2; ty++)
+				printf("S %d %d %d %d\nQ -\n", parent, chk, raw, ty);
+}
+
+static void GenCfgDefaults(Rng& rng, int n)
+{
+	static const char *nodes = "N 0 h -1\nN 1 h -1\nN 2 s 0\nN 3 s 1\n";
+	/* everything unset: host parent, service parent, loaded and created at runtime */
+	printf("C cfg def-host\n%sD 0 1 0 - u u -1 u u\nL\n", nodes); DefAllStates(0);
+	printf("C cfg def-svc\n%sD 0 3 2 - u u -1 u u\nL\n", nodes); DefAllStates(2);
+	printf("C cfg rt-def-host\n%sD 0 3 0 - 16 1 -1 1 1\nL\nA 1 1 0 - u u -1 u u\n", nodes); DefAllStates(0);
+	printf("C cfg rt-def-svc\n%sD 0 3 0 - 16 1 -1 1 1\nL\nA 1 1 2 - u u -1 u u\n", nodes); DefAllStates(2);
+	/* one attribute unset at a time, the others at the opposite of their default */
+	for (int k = 0; k < 4; k++) {
+		printf("C cfg def-one-%d\n%sD 0 1 0 - %s %s -1 %s %s\nL\n", k, nodes, k == 0 ? "u" : "32", k == 1 ? "u" : "0", k == 2 ? "u" : "1", k == 3 ? "u" : "0");
+		DefAllStates(0);
+		printf("C cfg def-one-svc-%d\n%sD 0 3 2 g1 %s %s -1 %s %s\nL\n", k, nodes, k == 0 ? "u" : "12", k == 1 ? "u" : "0", k == 2 ? "u" : "1", k == 3 ? "u" : "0");
+		DefAllStates(2);
+	}
+	static const int pairs[6][2] = { { 1, 0 }, { 2, 0 }, { 2, 1 }, { 3, 0 }, { 3, 1 }, { 3, 2 } };
+	for (int i = 0; i < n; i++) {
+		printf("C cfg %sdef-%d\n%s", rng.below(2) ? "rt-" : "", i, nodes);
+		int nd = rng.range(1, 4), nextId = 0;
+		auto dep = [&](char op) {
+			const int *pr = pairs[rng.below(6)];
+			bool psvc = pr[1] >= 2;
+			auto tok = [&](int v) { return rng.below(2) ? std::string("u") : std::to_string(v); };
+			int filter = psvc ? (int)rng.below(16) : 16 * (int)rng.below(4);
+			printf("%c %d %d %d %s %s %s %d %s %s\n", op, nextId++, pr[0], pr[1], rng.below(3) == 0 ? "g1" : "-", tok(filter).c_str(),
+				tok((int)rng.below(2)).c_str(), rng.below(100) < 20 ? (int)rng.below(4) : -1, tok((int)rng.below(2)).c_str(), tok((int)rng.below(2)).c_str());
+		};
+		for (int k = 0; k < nd; k++) dep('D');
+		printf("L\n");
+		int na = (int)rng.below(3);
+		for (int k = 0; k < na; k++) dep('A');
+		for (int round = 0; round < 5; round++) {
+			int ns = rng.range(1, 3);
+			for (int k = 0; k < ns; k++)
+				printf("S %d %d %d %d\n", (int)rng.below(3), rng.below(100) < 85 ? 1 : 0, (int)rng.below(4), rng.below(100) < 70 ? 1 : 0);
+			if (rng.below(100) < 20) printf("T %d %d\n", (int)rng.below(4), (int)rng.below(2));
+			printf("Q -\n");
+		}
+	}
+}
+
+/* ------------------------------------------------------------------------------------------------
  * ops */
 
 static int RunOps(const char *path)
@@ -2098,9 +2203,9 @@ static int RunOps(const char *path)
 			break;
 		}
 		case 'D': {
-			int id, c, pa, filter, ign, period, dc, dn; char grp[128];
-			if (sscanf(p, "D %d %d %d %127s %d %d %d %d %d", &id, &c, &pa, grp, &filter, &ign, &period, &dc, &dn) != 9) { printf("FATAL bad D line\n"); return 2; }
-			E.D(id, c, pa, strcmp(grp, "-") ? grp : "", filter, ign, period, dc, dn);
+			int id, c, pa, period; char grp[128], tf[16], ti[16], tc[16], tn[16];
+			if (sscanf(p, "D %d %d %d %127s %15s %15s %d %15s %15s", &id, &c, &pa, grp, tf, ti, &period, tc, tn) != 9) { printf("FATAL bad D line\n"); return 2; }
+			E.D(id, c, pa, strcmp(grp, "-") ? grp : "", TokVal(tf), TokVal(ti), period, TokVal(tc), TokVal(tn));
 			break;
 		}
 		case 'X': {
@@ -2122,9 +2227,9 @@ static int RunOps(const char *path)
 			break;
 		}
 		case 'A': {
-			int id, c, pa, filter, ign, period, dc, dn; char grp[128];
-			if (sscanf(p, "A %d %d %d %127s %d %d %d %d %d", &id, &c, &pa, grp, &filter, &ign, &period, &dc, &dn) != 9) { printf("FATAL bad A line\n"); return 2; }
-			E.A(id, c, pa, strcmp(grp, "-") ? grp : "", filter, ign, period, dc, dn);
+			int id, c, pa, period; char grp[128], tf[16], ti[16], tc[16], tn[16];
+			if (sscanf(p, "A %d %d %d %127s %15s %15s %d %15s %15s", &id, &c, &pa, grp, tf, ti, &period, tc, tn) != 9) { printf("FATAL bad A line\n"); return 2; }
+			E.A(id, c, pa, strcmp(grp, "-") ? grp : "", TokVal(tf), TokVal(ti), period, TokVal(tc), TokVal(tn));
 			break;
 		}
 		case 'R': {
@@ -2182,6 +2287,8 @@ int main(int argc, char **argv)
 		int nrt = thorough ? 2500 : 300;
 		for (int i = 0; i < nrt; i++)
 			rt.Case(i);
+		Rng rng3(seed ^ 0xdefa017c07ULL);
+		GenCfgDefaults(rng3, thorough ? 800 : 120);
 		fflush(stdout);
 		_exit(0);
 	}
@@ -2199,6 +2306,7 @@ int main(int argc, char **argv)
 	signal(SIGABRT, OnAbort);
 	signal(SIGSEGV, OnAbort);
 	signal(SIGBUS, OnAbort);
+	signal(SIGALRM, OnQTimeout);
 	SetNow(kNow);
 	int rc = 0;
 
